@@ -32,3 +32,24 @@ def entry_ids(fx, names):
         fs = fx.fn(q, full=False)
         ids.extend(f.id for f in fs)
     return ids
+
+
+def nest_tls_rule(res, fx, rule, file_res):
+    """a recursion guard kept in a namespace-scope NestCount counts the nesting of the CURRENT THREAD's parse: the parsers may run on any thread at once"""
+    import re
+    nguards = []
+    for gv in fx.gvars:
+        ts = gv.get('_types')
+        tn = ts[gv['t']] if ts and isinstance(gv.get('t'), int) and gv['t'] < len(ts) else ''
+        if tn.replace('const ', '').strip() in ('muscle::NestCount', 'NestCount') and any(re.search(a_, gv['file']) for a_ in file_res):
+            nguards.append(gv)        # (counters of other subsystems, e.g. the logger's re-entrancy flag, are not parse guards)
+    seen_g = set()
+    for gv in nguards:
+        if gv['q'] in seen_g:
+            continue
+        seen_g.add(gv['q'])
+        res.ob(rule, '%s:%s' % (gv['file'], gv['line']), 'the global nesting counter %s is thread-local' % gv['q'], gv.get('tls') == 1, function=gv['q'], key='%s|%s|thread-local' % (rule, gv['q']),
+               message='the recursion-depth counter %s is shared by all threads: the nesting depths of concurrent parses add up (valid Messages are rejected once the sum reaches the limit) and the '
+                       'unsynchronised updates make the count drift, so the guard neither bounds the recursion of one thread nor admits what it should' % gv['q'])
+    if not nguards:
+        raise F.AnalysisBroken('%s: no namespace-scope NestCount found (the Message parsers keep their nesting depth in one)' % rule)
